@@ -61,8 +61,13 @@ def run_sequence(ctx, rng):
     # differ is staged into it, then the store is migrated to an md5 store (the rest of the history is random as before)
     plan = []
     if specs[0]["algo"] == "md5-dos2unix" and rng.random() < 0.45:
-        plan = [("stage_legacy", 0), ("migrate", 0, rng.randrange(1, n))]
-        ctx.count("directed opening: legacy content staged, then migrated")
+        if rng.random() < 0.5:
+            plan = [("stage_legacy", 0), ("migrate", 0, rng.randrange(1, n))]
+            ctx.count("directed opening: legacy content staged, then migrated")
+        else:
+            # ... or imported into an md5 store the way data of a 2.x repository is: through an index of the legacy store
+            plan = [("stage_legacy", 0), ("import", 0, rng.randrange(1, n))]
+            ctx.count("directed opening: legacy content staged, then imported through an index into an md5 store")
     try:
         for step in range(rng.randrange(3, 10)):
             r = rng.random()
@@ -102,6 +107,14 @@ def run_sequence(ctx, rng):
                 else:
                     t = _stage_rewritten_before_transfer(rng, root, wsn, i, sp, fs, build, transfer)
                 trace.append(t)
+            elif (forced and forced[0] == "import") or (forced is None and rng.random() < 0.14):
+                # ---- staging from an index served as a filesystem (an import): the source names come from another store, possibly
+                # under another algorithm than the destination's
+                j = forced[2] if forced else rng.randrange(n)
+                t, fl, tr = _import_through_index(rng, i, j, sp, specs[j], build, transfer, HashInfo)
+                trace.append(t)
+                specs[j]["files"] += fl
+                specs[j]["trees"] += tr
             elif (forced and forced[0] == "stage_legacy") or (forced is None and r < 0.3):
                 files = gen.rand_tree(rng, max_files=5, max_depth=2)
                 if rng.random() < 0.5:
@@ -186,6 +199,9 @@ def run_sequence(ctx, rng):
     ctx.case(case, nontrivial=len(trace) >= 3)
     for t in trace:
         ctx.count("op:" + t[0])
+        if t[0] == "import_through_index" and len(t) > 4:
+            ctx.count("import through an index: %s, store as %s, %s, %s" % (t[3], t[4], t[7],
+                      "all staged" if all(o == "ok" for o in t[-1]) else "some staging failed"))
         if t[0].startswith("verified_") and isinstance(t[-1], list):
             ctx.count("unfaithful source, verify=True: " + ("hash-state database" if shared_state is not None else "no state") + ", "
                       + ("some objects refused" if t[-1][3] else "nothing refused"))
@@ -317,6 +333,109 @@ def _stage_rewritten_before_transfer(rng, root, wsn, i, sp, fs, build, transfer)
             ["transferred", len(res.transferred), "failed", len(res.failed)] if kind == "ok" else res]
 
 
+def _import_through_index(rng, i, j, src, dst, build, transfer, HashInfo):
+    """what an import from another repository does: some objects of store `i` (files and directories, under whatever algorithm that
+    store uses) are described by a DataIndex whose entries carry *that* store's hash name; the index is served as a filesystem
+    (DataFileSystem over the store as cache or remote) and paths of it - each entry on its own or a directory of entries -
+    are staged with build(.., <algorithm of store j>) and transferred into store `j`.  Returns the trace entry and, when
+    every staging succeeded, the {key: bytes} trees / single contents store `j` has to hold afterwards."""
+    from dvc_objects.fs import as_filesystem
+
+    from dvc_data.fs import DataFileSystem
+    from dvc_data.hashfile.meta import Meta
+    from dvc_data.index import DataIndex, DataIndexEntry, ObjectStorage
+
+    src_path = src["odb"].path
+    have = stores.listing_of(src_path)
+    if not have:
+        return ["import_through_index", i, j, "source store empty"], [], []
+
+    def content(oid):
+        p = os.path.join(src_path, oid[:2], oid[2:])
+        if len(oid) < 3 or not os.path.isfile(p):
+            return None
+        with open(p, "rb") as f:
+            return f.read()
+
+    def dir_files(oid):
+        """{key: bytes} of a stored listing, None when a file of it is not in the source store"""
+        out = {}
+        for e in json.loads(content(oid)):
+            b = content(e.get(src["algo"]) or e.get("md5") or "")
+            if b is None:
+                return None
+            out[tuple(e["relpath"].split("/"))] = b
+        return out
+
+    # only directories whose files the source store holds (a listing a migration carried over names the files by the other
+    # algorithm; a partial store-to-store copy may have left files behind): the import reads a complete source
+    dirs = [o for o in have if o.endswith(".dir") and dir_files(o) is not None]
+    plain = [o for o in have if not o.endswith(".dir")]
+    picked = []
+    if dirs and rng.random() < 0.8:
+        picked += rng.sample(dirs, min(len(dirs), rng.randrange(1, 3)))
+    picked += rng.sample(plain, min(len(plain), rng.randrange(0 if picked else 1, 3)))
+    if not picked:
+        picked = [rng.choice(have)]
+    prefix = rng.choice([(), (), ("imp",), ("imp", "sub")])
+    with_size = rng.random() < 0.7
+    entries, expect, complete = {}, {}, True
+    for n, oid in enumerate(picked):
+        key = prefix + ("%s%d" % ("d" if oid.endswith(".dir") else "f", n),)
+        if oid.endswith(".dir"):
+            entries[key] = DataIndexEntry(key=key, meta=Meta(isdir=True), hash_info=HashInfo(src["algo"], oid))
+            fl = dir_files(oid)
+            if fl is None:
+                complete = False
+            else:
+                expect[key] = fl
+        else:
+            b = content(oid)
+            entries[key] = DataIndexEntry(key=key, meta=Meta(size=len(b)) if with_size else Meta(), hash_info=HashInfo(src["algo"], oid))
+            expect[key] = b
+    if rng.random() < 0.5:
+        # the directories above the entries are in the index themselves (otherwise they exist only as key prefixes)
+        for d in range(1, len(prefix) + 1):
+            entries[prefix[:d]] = DataIndexEntry(key=prefix[:d], meta=Meta(isdir=True), loaded=True)
+    index = DataIndex(entries)
+    role = rng.choice(["cache", "remote"])
+    getattr(index.storage_map, "add_" + role)(ObjectStorage((), src["odb"]))
+    dfs = as_filesystem(DataFileSystem(index))
+    # which paths of the served filesystem are staged: every entry on its own, or one directory above them (never the root "/":
+    # _build_tree's string slicing gives the files directly below a root path the relpath "/name", which is not about C01)
+    whole = bool(prefix) and rng.random() < 0.5
+    if whole:
+        targets = [prefix[: rng.randrange(1, len(prefix) + 1)]]
+    else:
+        targets = sorted(k for k in entries if k not in [prefix[:d] for d in range(1, len(prefix) + 1)])
+    files, trees, outcome = [], [], []
+    for t in targets:
+        path = "/" + "/".join(t)
+        kind, res = safe_call(lambda: _stage(build, transfer, dst["odb"], path, dfs, dst["algo"]))
+        outcome.append(kind if kind == "ok" else res)
+        if kind != "ok":
+            complete = False
+            continue
+        under = {k: v for k, v in expect.items() if k[: len(t)] == t}
+        if isinstance(under.get(t), bytes):
+            files.append(under[t])
+        else:
+            tree = {}
+            for k, v in under.items():
+                if isinstance(v, bytes):
+                    tree[k[len(t):]] = v
+                else:
+                    tree.update({k[len(t):] + sub: b for sub, b in v.items()})
+            trees.append(tree)
+            files += list(tree.values())
+    kinds = sorted({"dir" if o.endswith(".dir") else "file" for o in picked})
+    t = ["import_through_index", i, j, src["algo"] + "->" + dst["algo"], role, "+".join(kinds), len(picked),
+         "one tree" if whole else "each entry", "sizes" if with_size else "no sizes", outcome]
+    if not complete:
+        return t, [], []
+    return t, files, trees
+
+
 def _stage(build, transfer, odb, path, fs, algo):
     staging, meta, obj = build(odb, path, fs, algo)
     res = transfer(staging, odb, {obj.hash_info}, shallow=False)
@@ -329,6 +448,9 @@ def run(ctx):
     ctx.rule = (
         "sequences of 3-9 operations {stage+transfer a directory (odd names, duplicates, empty files, CRLF text; with a shared state database often after staging every other file of it on its own: partially warm cache), stage+transfer a "
         "file, store-to-store transfer (copy or hardlink, verify or not), index build/md5/save, migrate to another store (incl. md5-dos2unix -> md5), "
+        "an import through an index (file and '.dir' objects of one store described by a DataIndex under that store's hash name, served by "
+        "DataFileSystem with the store as cache or remote, each entry / a directory of entries staged with build(.., the destination's "
+        "algorithm) and transferred into the same or another store: md5 -> md5, md5-dos2unix -> md5, md5 -> md5-dos2unix), "
         "a verify=True transfer from a source that does not hold what its names say: fetch (copy or hardlink) from a freshly filled remote of "
         "either class in which file and '.dir' objects have rotted (same or other size, still write-protected or not), or transfer of a "
         "staged file/directory some of whose files were rewritten (in place or renamed over, same or other size) after build()} "
